@@ -30,6 +30,7 @@ var fsAllowed = map[string]string{
 }
 
 func checkC11(p *Prog, r *Report) {
+	liftProg = p
 	a := ResolveAnchors(p)
 	if !anchorCheck(a, r) {
 		return
@@ -179,6 +180,49 @@ func ruleC11Loader(p *Prog, a *Anchors, r *Report) {
 				}
 			}
 		}
+		// the error edge must go on to the next loader: no return is reachable from it without passing the loop header
+		if errEx != nil {
+			for _, b := range f.Blocks {
+				iff, ok := b.Instrs[len(b.Instrs)-1].(*ssa.If)
+				if !ok {
+					continue
+				}
+				c, pol := normCond(iff.Cond, true)
+				x, eq, isNil := condIsNilTest(c)
+				if !isNil || !flowsFromCellOrSelf(x, errEx) {
+					continue
+				}
+				errSucc := b.Succs[1]
+				if eq != pol {
+					errSucc = b.Succs[0]
+				}
+				loopHead := loopHeaderOf(ia.Index)
+				if loopHead == nil {
+					continue
+				}
+				// blocks reachable from the error edge without passing the header
+				seen := map[*ssa.BasicBlock]bool{loopHead: true}
+				work := []*ssa.BasicBlock{errSucc}
+				early := ""
+				for len(work) > 0 {
+					x := work[0]
+					work = work[1:]
+					if seen[x] {
+						continue
+					}
+					seen[x] = true
+					if ret, isRet := x.Instrs[len(x.Instrs)-1].(*ssa.Return); isRet {
+						early = p.InstrPos(ret)
+					}
+					work = append(work, x.Succs...)
+				}
+				if early != "" {
+					r.Bad(key+":error-continues", early, "a loader's error can end the search before the remaining loaders were asked: a later loader that has the name is never consulted")
+				} else {
+					r.OK(key+":error-continues", pos, "a loader that does not have the name only advances the loop")
+				}
+			}
+		}
 		if okRet {
 			r.OK(key, pos, "first hit returns from inside the loop")
 		} else {
@@ -310,6 +354,29 @@ func ruleC11Name(p *Prog, a *Anchors, r *Report) {
 		pos := p.InstrPos(in)
 		switch callee {
 		case fromFile:
+			// a helper that is handed the already resolved name: judge the name at the helper's call sites
+			if pa, isParam := args[1].(*ssa.Parameter); isParam && p.staticOnly(pa.Parent(), nil) {
+				idx := indexOfParam(pa.Parent(), pa)
+				allOK := true
+				for _, e := range p.CG.Nodes[pa.Parent()].In {
+					cargs := callArgs(e.Site.Common())
+					okArg := false
+					if idx < len(cargs) {
+						if rc, isCall := cargs[idx].(*ssa.Call); isCall && rc.Common().StaticCallee() == resolve && isReferringSet(rc.Common().Args[0]) && isReferringTemplate(rc.Common().Args[1]) {
+							okArg = true
+						}
+					}
+					if !okArg {
+						allOK = false
+					}
+				}
+				if allOK && isReferringSet(args[0]) {
+					r.OK(key, pos, "helper: every caller passes resolveFilename(<referring template>, name) and the referring set")
+				} else {
+					r.Bad(key, pos, "FromFile in helper %s is reached with a name/set that is not resolved against the referring template at every call site", p.FuncName(f))
+				}
+				return
+			}
 			rc, ok := args[1].(*ssa.Call)
 			if !ok || rc.Common().StaticCallee() != resolve {
 				// value stored in a field earlier (importNode.filename = resolveFilename(...))
